@@ -12,6 +12,7 @@ Section FindProofs.
   Variable enc : Type.
   Variable dec_all : enc -> bytes -> bytes.
   Variable dec_stream : enc -> list bytes -> bytes.
+  Variable dec_partial : enc -> list bytes -> bytes.
   Variable parse_ct : bytes -> ct_parse.
   Variable lookup_charset : bytes -> option enc.
   Variable lookup_name : bytes -> option (enc * bytes).
@@ -21,7 +22,7 @@ Section FindProofs.
   Hypothesis prescan_short : forall b, length b <= 2 -> prescan b = None.
 
   Notation fe := (find_encoding_m lookup_name prescan).
-  Notation respond := (respond dec_stream fe parse_ct lookup_charset).
+  Notation respond := (respond dec_stream dec_partial fe parse_ct lookup_charset).
   Notation decide := (decide parse_ct lookup_charset).
 
   (* ---------- UTF-8 BOM ---------- *)
@@ -41,16 +42,16 @@ Section FindProofs.
 
   (* a body that starts with the UTF-8 byte-order mark is never transcoded by the sniffing reader,
      however it is split and read (and whatever a meta tag in it says) *)
-  Theorem bom_utf8_never_transcoded disable sel resp_ae ct chunks eof_last takes sizes o rest0 e8 n8 :
+  Theorem bom_utf8_never_transcoded disable sel resp_ce ct chunks eof_last fail takes sizes o rest0 e8 n8 :
     lookup_name (bs "utf-8") = Some (e8, n8) -> is_utf8_name n8 = true ->
-    decide disable sel resp_ae ct = ISniff ->
+    decide disable sel resp_ce ct = ISniff ->
     concat chunks = [xef; xbb; xbf] ++ rest0 ->
-    respond disable sel resp_ae ct chunks eof_last takes sizes = (o, true) ->
+    respond disable sel resp_ce ct chunks eof_last fail takes sizes = (o, EEOF) ->
     o = concat chunks.
   Proof.
-    intros L U D B H. apply (respond_exact _ dec_all dec_stream fe parse_ct lookup_charset dec_ok) in H.
+    intros L U D B H. apply (respond_exact _ dec_all dec_stream dec_partial fe parse_ct lookup_charset dec_ok) in H.
     rewrite D in H. unfold sniffed in H.
-    destruct (first_read sizes (fresh_net chunks eof_last)) as [b|] eqn:F; [|exact H].
+    destruct (first_read sizes (fresh_net chunks eof_last fail)) as [b|] eqn:F; [|exact H].
     destruct (first_read_prefix _ _ _ F) as [Hb [rest Hr]]. cbn [fresh_net n_chunks] in Hr.
     rewrite (fe_utf8_bom b rest rest0 e8 n8 Hb) in H; auto. congruence.
   Qed.
@@ -88,17 +89,17 @@ Section FindProofs.
   (* a body that starts with a UTF-16 byte-order mark: transcoded from that UTF-16 flavour when the
      first non-empty read holds at least the two bytes of the mark, left alone when it holds one byte;
      nothing else *)
-  Theorem bom_utf16_decided_by_first_read disable sel resp_ae ct chunks eof_last takes sizes o
+  Theorem bom_utf16_decided_by_first_read disable sel resp_ce ct chunks eof_last fail takes sizes o
           mark label rest0 e n b :
     In (mark, label) [([xff; xfe], bs "utf-16le"); ([xfe; xff], bs "utf-16be")] ->
     lookup_name label = Some (e, n) -> is_utf8_name n = false ->
-    decide disable sel resp_ae ct = ISniff ->
+    decide disable sel resp_ce ct = ISniff ->
     concat chunks = mark ++ rest0 ->
-    first_read sizes (fresh_net chunks eof_last) = Some b ->
-    respond disable sel resp_ae ct chunks eof_last takes sizes = (o, true) ->
+    first_read sizes (fresh_net chunks eof_last fail) = Some b ->
+    respond disable sel resp_ce ct chunks eof_last fail takes sizes = (o, EEOF) ->
     (2 <= length b -> o = dec_all e (concat chunks)) /\ (length b = 1 -> o = concat chunks).
   Proof.
-    intros I L U D B F H. apply (respond_exact _ dec_all dec_stream fe parse_ct lookup_charset dec_ok) in H.
+    intros I L U D B F H. apply (respond_exact _ dec_all dec_stream dec_partial fe parse_ct lookup_charset dec_ok) in H.
     rewrite D in H. unfold sniffed in H. rewrite F in H.
     destruct (first_read_prefix _ _ _ F) as [Hb [rest Hr]]. cbn [fresh_net n_chunks] in Hr.
     split.
